@@ -155,6 +155,7 @@ FIELDS = {"sb": SB_FIELDS, "sb_backup": SB_FIELDS, "gd": GD_FIELDS, "inode": INO
           "mmp": MMP_FIELDS, "jsb": JSB_FIELDS, "jblk": JBLK_FIELDS, "jrev": JREV_FIELDS, "jdesc": JDESC_FIELDS, "jcommit": JCOMMIT_FIELDS, "undo_hdr": UNDO_HDR_FIELDS, "undo_key": UNDO_KEY_FIELDS,
           "qcow_hdr": QCOW_HDR_FIELDS, "qcow_l1": QCOW_TBL_FIELDS, "qcow_l2": QCOW_TBL_FIELDS, "qcow_rt": QCOW_TBL_FIELDS,
           "qcow_rb": [("r0", 0, 2), ("r1", 2, 2)]}
+REPAIRABLE = ("sb", "gd", "inode", "undo_hdr", "undo_key")        # classes whose checksum fix_csum / structured() can recompute
 VALUE_CLASSES = ["zero", "one", "ones", "msb", "max_signed", "inc", "dec", "dbl", "half", "flip_lo", "flip_hi", "rnd_a", "rnd_b"]
 
 
@@ -532,6 +533,22 @@ def _target_of(base, cls):
     return "img"
 
 
+NONCSUM_PROFILES = {"ext2_1k", "ext3_1k", "ext4_old", "ino128"}          # mkbase profiles without metadata_csum
+CSUM_CLASSES = {"sb", "sb_backup", "gd", "inode", "extblk", "xblk", "dirblk", "bb", "ib", "orphanblk", "mmp"}
+
+
+def _shielded(base, cls, fix):
+    """True when a checksum of the format protects the damaged object in this base and the recipe does not repair it:
+    most readers then stop at the checksum test (e2fsck goes on).  The quick sample prefers unshielded recipes."""
+    if fix:
+        return False
+    if base.kind == "fs":
+        return base.info.get("profile") not in NONCSUM_PROFILES and cls in CSUM_CLASSES
+    if base.kind == "jrn":
+        return base.info.get("stratum", {}).get("csum", 0) in (2, 3) and cls in ("jdesc", "jrev", "jcommit", "jsb", "jblk")
+    return False
+
+
 def structured(base, seed, tier, limit=None):
     """Single-field corruptions of the catalogue for this base (list of input recipes).  The abstract catalogue
     (object, field, value class, checksum repaired or not) is enumerated first; `limit` = at most that many items per
@@ -548,7 +565,7 @@ def structured(base, seed, tier, limit=None):
             if cls == "dirblk" and fld[0].startswith("dxroot") and key.split(":")[1] != "0":
                 continue
             for vc in VALUE_CLASSES:
-                for fix in ((0, 1) if cls in ("sb", "gd", "inode", "undo_hdr", "undo_key") else (0,)):
+                for fix in ((0, 1) if cls in REPAIRABLE else (0,)):
                     cat.setdefault(cls, []).append((cls, key, off, fld, vc, fix))
     for cls, items in cat.items():
         if limit is not None and len(items) > limit:
@@ -586,6 +603,7 @@ def structured(base, seed, tier, limit=None):
                     pokes += fx
             iid = "%s|%s:%s.%s=%s%s" % (base.id, cls, key, fld[0], vc, "+csum" if fix else "")
             out.append(dict(id=iid, family="struct1:" + cls, base=base.id, target=target, pokes=pokes, trunc=-1, field=fld[0], vc=vc,
+                            shielded=_shielded(base, cls, fix),
                             what="%s %s field %s <- %s%s" % (cls, key, fld[0], vc, " (checksum recomputed)" if fix else "")))
     return out
 
@@ -732,6 +750,7 @@ def sample_quick(U, seed, per_family):
             keys = sorted(buckets, key=lambda k: ({"large": 0, "random": 1, "small": 2}[k[0]], k[1]))
             for b_ in buckets.values():
                 rng.shuffle(b_)
+                b_.sort(key=lambda u: not u.get("shielded", False))      # pop() takes from the end: unshielded first (stable)
             pick = []
             while len(pick) < n:
                 progressed = False
